@@ -39,9 +39,38 @@ RULE = ('metainfo objects = valid torrents from the C05 grammar turned into Pyth
         'Second stream: valid torrents with one exotic value (generator, map, filter, zip, iterator, reversed, enumerate, '
         'chain, re-iterable non-Collection, dict views, set, frozenset, range, bytearray, memoryview, deque, UserList, '
         'UserDict, mappingproxy, custom Sequence / Mapping / Collection, int / str / bytes subclasses) in info, in a file '
-        'entry, nested or at top level, and 2-7 export operations in a random order on ONE Torrent object')
+        'entry, nested or at top level, and 2-7 export operations in a random order on ONE Torrent object' + '. '
+        'Third stream: histories on ONE Torrent object that comes from Magnet.torrent() (hash in hex / base32, upper / lower case; '
+        'no get_info(), or get_info() against a loopback server that serves the matching torrent, another torrent, a torrent '
+        'without pieces, garbage or 404, validating or not - so the object carries the stored magnet hash or adopted metadata) '
+        'or from Torrent() / read_stream(); then 1-6 stages of edits: info completed key by key / info assigned / whole metainfo '
+        'assigned from a generated document, path + generate() on real content, attribute setters (private, source, name, '
+        'comment, trackers, webseeds, creation_date, randomize_infohash, piece_size), made invalid again (missing / ill-typed '
+        'name, pieces, piece length, length, files; info deleted or no dict; a None / nan value or a 4400-digit int inside info '
+        'or at top level; content file grows on disk; path = None), repaired, re-completed, copy(); at every stage all of '
+        'infohash, infohash_base32, magnet().xt, magnet(name=False,size=False,trackers=False).xt, str(magnet()), dump(), '
+        'dump(validate=False), write_stream(), write() in a random order with repeats; every state (also one that an export '
+        'itself produced by changing the metainfo) is judged against the specification and compared with the model, which '
+        'carries the stored hash through the history. non-trivial history = some state was written and another one was not '
+        'or has a different stored-hash status; distinct = (history seed, profile of its states)')
 
-MATCHERS = {}
+def _m_magnet_restores_name(case, observed, finding):
+    """D06a, as narrow as the defect: a history case; the state was reached because magnet() / str(magnet()) itself added
+    exactly the key `name` to info; the only report that disagrees is the one returned by that very call, and it is the
+    stored hash of the magnet the object was created from; every other report in the state denotes one (other) hash."""
+    if not (isinstance(case, dict) and case.get('kind') == 'history' and case.get('changed_by') in ('magnet', 'magnet_str')):
+        return False
+    if not isinstance(observed, dict) or observed.get('the export changed') != {'info keys added': ['name'], 'anything else': False}:
+        return False
+    det, stored = observed.get('detail'), observed.get('stored hash (model)')
+    if not (isinstance(det, list) and det and stored and all(isinstance(x, (list, tuple)) and len(x) == 2 for x in det)):
+        return False
+    first, rest = det[0], det[1:]
+    return (first[0] == case['changed_by'] and first[1] == stored and bool(rest)
+            and len({d for _, d in rest}) == 1 and rest[0][1] != stored)
+
+
+MATCHERS = {'magnet_restores_name': _m_magnet_restores_name}
 
 
 def ekind(e):
@@ -802,6 +831,578 @@ def evaluate_exotic(ctx, drv, cases):
                     ctx.corr_break('c06.export/exotic-infohash', case, _short(mib), ierrs[0])
 
 
+# ------------------------------------------------------------------ histories on ONE Torrent that comes from Magnet.torrent()
+# The object state that matters here is (metainfo, _infohash).  `Magnet.torrent()` stores the magnet's hash on the new
+# object unless metadata was downloaded (get_info); Torrent.infohash may only fall back to it when the hash cannot be
+# calculated.  Model: ReadStream.infohashOf / Obj.run, theorems C06_explicit_span_validated, C06_history,
+# C06_explicit_iff, C06_incalculable_iff.
+H_EXPORTS = ['infohash', 'b32', 'magnet', 'magnet_min', 'magnet_str', 'dump', 'dump_nv', 'write_stream', 'write']
+H_VALIDATED = ('dump', 'write_stream', 'write')
+H_HASHES = ('infohash', 'b32', 'magnet', 'magnet_min', 'magnet_str')
+BIG_S = '1' + '0' * 4400              # an int with more digits than int -> str conversion allows: bencoding raises ValueError
+
+
+def _hdoc(r, case, i):
+    """the i-th document of a history case as Python values (deterministic in the case)"""
+    import random
+    return pyify(random.Random(case['seed'] * 7 + i), dec(case['docs'][i]), keep_bytes=0)
+
+
+def _own_hash(bdoc):
+    """SHA-1 of the canonical bencoding of the document's info dictionary (independent serialiser)"""
+    return hashlib.sha1(bstrict.ser(bdoc[b'info'])).hexdigest()
+
+
+INVALIDATE = [
+    ['del-info', 'pieces'], ['del-info', 'name'], ['del-info', 'piece length'], ['del-info', 'length'],
+    ['del-info', 'files'], ['set-info', 'piece length', {'i': '0'}], ['set-info', 'piece length', {'i': '1000'}],
+    ['set-info', 'piece length', {'s': '16384'}], ['set-info', 'pieces', {'b': ''}], ['set-info', 'pieces', {'b': '78' * 19}],
+    ['set-info', 'name', {'i': '5'}], ['set-info', 'length', {'i': '7'}], ['set-info', 'files', {'l': []}],
+    ['set-info', 'x-none', {'n': 1}], ['set-info', 'x-nan', {'f': 'nan'}],
+    ['set-top', 'x-none', {'n': 1}], ['set-top', 'announce', {'i': '5'}],
+    ['set-top', 'info', {'l': [{'i': '1'}]}], ['del-top', 'info'], ['attr', 'piece_size', {'i': '32768'}],
+    ['path-none'], ['touch-content'],
+]
+# validate() accepts, the converter accepts, bencoding raises ValueError (in info: the hash cannot be calculated; at top level:
+# the hash can be calculated but nothing can be written).  Rare: the 4400-digit numeral is slow in the model.
+INVALIDATE_BIG = [['set-info', 'x-big', {'i': BIG_S}], ['set-top', 'x-big', {'i': BIG_S}]]
+REPAIR = [['del-info', 'x-none'], ['del-info', 'x-big'], ['del-info', 'x-nan'], ['del-top', 'x-none'], ['del-top', 'x-big'],
+          ['del-top', 'announce'], ['regenerate']]
+ATTRS = [['attr', 'private', {'B': True}], ['attr', 'private', {'B': False}], ['attr', 'private', {'n': 1}],
+         ['attr', 'source', {'s': 'src'}], ['attr', 'source', {'n': 1}], ['attr', 'name', {'s': 'renamed'}],
+         ['attr', 'comment', {'s': 'c\xe9'}], ['attr', 'comment', {'n': 1}], ['attr', 'randomize_infohash', {'B': True}],
+         ['attr', 'randomize_infohash', {'B': False}], ['attr', 'created_by', {'s': 'me'}],
+         ['attr', 'trackers', {'l': [{'l': [{'s': 'http://a.example/x'}]}]}], ['attr', 'trackers', {'n': 1}],
+         ['attr', 'webseeds', {'l': [{'s': 'http://w.example/f'}]}],
+         ['attr', 'creation_date', {'D': [2020, 2, 3, 4, 5, 6]}], ['attr', 'creation_date', {'n': 1}],
+         ['set-info', 'x-extra', {'l': [{'B': True}, {'s': '\xe9'}]}], ['set-top', 'x-extra', {'d': [[{'s': 'k'}, {'i': '1'}]]}],
+         ['set-info', 'private', {'i': '1'}], ['set-info', 'source', {'b': 'ff'}]]
+
+
+def _is_utf8(b):
+    try:
+        b.decode('utf8')
+        return True
+    except UnicodeDecodeError:
+        return False
+
+
+def _gen_edit(r):
+    files = [['a.bin', r.choice([1, 100, 16384, 40000])]]
+    if r.random() < 0.6:
+        files.append(['sub/b.txt', r.choice([0, 5, 20000])])
+    return ['generate', {'single': r.random() < 0.3, 'files': files, 'tag': r.randrange(256)}]
+
+
+def _complete_edit(r, ndocs):
+    return [r.choice(['sync-info', 'sync-info', 'assign-info', 'assign-metainfo', 'update-info']), r.randrange(ndocs)]
+
+
+def history_cases(ctx, n):
+    r = ctx.rng
+    cases = []
+    for i in range(n):
+        docs = [gen.metainfo(r, {}) for _ in range(2)]
+        for d in docs:                      # a content path is set in some histories: validate() then joins the path components
+            for f in d[b'info'].get(b'files', []):     # with it, and a bytes component makes that raise TypeError (C07, finding D07f)
+                f[b'path'] = [p if _is_utf8(p) else b'not-utf8' for p in f[b'path']]
+                # ... and a component that is absolute or contains a separator ('/', '/etc/x') makes os.path.join leave the
+                # content directory: validate() then stats files outside it and generate() walks the whole file system from
+                # '/' (observed: a worker busy for 27 min) - a defect of path handling reported to the coordinator, not an
+                # export matter; such components are replaced here and stay in the first stream, where no path is set
+                f[b'path'] = [p if b'/' not in p and p not in (b'', b'.', b'..') else b'component' for p in f[b'path']]
+        serve = r.random() < 0.5
+        payload = r.choice(['doc0', 'doc0', 'doc0', 'doc0-nopieces', 'garbage', 'notfound']) if serve else None
+        own = r.random() < (0.75 if payload == 'doc0' else 0.25)
+        mag = {'hash': 'doc0' if own else ''.join(r.choice('0123456789abcdef') for _ in range(40)),
+               'notation': r.choice(['hex-lower', 'hex-lower', 'hex-upper', 'b32-upper', 'b32-lower']),
+               'dn': None if r.random() < 0.2 else r.choice(['name', 'My Content', 'n\xe9', 'a b+c']),
+               'xl': None if r.random() < 0.4 else r.choice([1, 123, 16384, 99999]),
+               'tr': r.randint(0, 2), 'ws': r.randint(0, 1)}
+        meta = {'serve': payload, 'validate': r.random() < 0.7}
+        # where the object comes from: Magnet.torrent() (most), or - no stored hash at all - Torrent() / Torrent.read_stream(doc0)
+        origin = 'magnet' if r.random() < 0.8 else r.choice(['new', 'read'])
+        if origin != 'magnet':
+            meta['serve'] = None
+        stages = [{'edits': []}]
+        k = r.random()
+        if k < 0.25:        # completed by hand, made invalid again, re-completed, attribute change
+            plan = [[_complete_edit(r, 2)], [r.choice(INVALIDATE)], [_complete_edit(r, 2)], [r.choice(ATTRS)]]
+        elif k < 0.45:      # metainfo assigned, attribute changes, invalid, other metainfo
+            plan = [[['assign-metainfo', 0]], [r.choice(ATTRS), r.choice(ATTRS)], [r.choice(INVALIDATE)], [['assign-info', 1]]]
+        elif k < 0.62:      # path + generate(), content changes on disk, generate() again
+            plan = [[_gen_edit(r)], [r.choice(ATTRS)], [r.choice([['touch-content'], ['path-none'], r.choice(INVALIDATE)])],
+                    [r.choice([['regenerate'], _gen_edit(r), _complete_edit(r, 2)])]]
+        else:
+            plan = []
+            for _ in range(r.randint(1, 6)):
+                pool = r.choice([INVALIDATE, REPAIR, ATTRS, None, None])
+                plan.append([r.choice(pool) if pool else r.choice([_complete_edit(r, 2), _complete_edit(r, 2), _gen_edit(r)])
+                             for _ in range(r.choice([1, 1, 2]))])
+        plan = plan[:r.randint(max(1, len(plan) - 2), len(plan))]
+        if r.random() < 0.03:
+            plan[r.randrange(len(plan))].append(r.choice(INVALIDATE_BIG))
+        if r.random() < 0.15:
+            plan[r.randrange(len(plan))].insert(r.choice([0, 1]), ['copy'])
+        stages += [{'edits': e} for e in plan]
+        for st in stages:
+            order = list(H_EXPORTS)
+            r.shuffle(order)
+            for _ in range(r.choice([0, 0, 1, 3])):
+                order.insert(r.randrange(len(order) + 1), r.choice(H_EXPORTS))
+            st['order'] = order
+        cases.append({'kind': 'history', 'seed': r.randrange(2 ** 31), 'docs': [enc(d) for d in docs], 'magnet': mag,
+                      'meta': meta, 'origin': origin, 'stages': stages})
+    return cases
+
+
+class _NoMagnet(Exception):
+    pass
+
+
+def _apply_edit(torf, t, e, docs, env):
+    """one edit of the history; returns the object the history continues on"""
+    import copy as _copy
+    op = e[0]
+    if op == 'copy':
+        return t.copy()
+    if op in ('update-info', 'sync-info', 'assign-info', 'assign-metainfo'):
+        d = _copy.deepcopy(docs[e[1]])
+        if op == 'assign-metainfo':
+            t.metainfo.clear()
+            t.metainfo.update(d)
+        elif op == 'assign-info':
+            t.metainfo['info'] = d['info']
+        else:
+            info = t.metainfo['info']
+            if op == 'sync-info':
+                for k in [k for k in info if k not in d['info']]:
+                    del info[k]
+            for k, v in d['info'].items():           # key by key, as somebody completing a torrent by hand does
+                info[k] = v
+    elif op == 'del-info':
+        t.metainfo['info'].pop(e[1], None)
+    elif op == 'set-info':
+        t.metainfo['info'][e[1]] = dec(e[2])
+    elif op == 'set-top':
+        t.metainfo[e[1]] = dec(e[2])
+    elif op == 'del-top':
+        t.metainfo.pop(e[1], None)
+    elif op == 'attr':
+        setattr(t, e[1], dec(e[2]))
+    elif op == 'generate':
+        spec = e[1]
+        env['n'] += 1
+        root = os.path.join(env['dir'], 'g%d' % env['n'], 'content %d' % spec['tag'])
+        files = spec['files'][:1] if spec['single'] else spec['files']
+        paths = []
+        for rel, size in files:
+            fp = root if spec['single'] else os.path.join(root, rel)
+            os.makedirs(os.path.dirname(fp), exist_ok=True)
+            with open(fp, 'wb') as f:
+                f.write(bytes((spec['tag'] + j * 7) % 256 for j in range(size)))
+            paths.append(fp)
+        env['files'] = paths
+        t.path = root
+        t.generate()
+    elif op == 'regenerate':
+        pl = t.metainfo['info'].get('piece length')
+        if not (type(pl) is int and pl >= 16384):
+            # generate() does not validate the piece length (0 raises ValueError from range(), small values hash thousands
+            # of pieces): C01/C18 matters, not exports - the edit is refused like any other edit the object refuses
+            raise ValueError('regenerate skipped: piece length %r' % (pl,))
+        t.generate()
+    elif op == 'path-none':
+        t.path = None
+    elif op == 'touch-content':
+        if env.get('files'):
+            with open(env['files'][0], 'ab') as f:
+                f.write(b'!')
+    else:
+        raise ValueError(op)
+    return t
+
+
+HISTORY_TIMEOUT = 180          # seconds for one history (normally ~30 ms).  Backstop only: SIGALRM interrupts Python
+                               # bytecode, not a long C-level call (os.walk over '/' was not interrupted by it)
+
+
+class _Timeout(BaseException):
+    pass
+
+
+def _on_alarm(signum, frame):
+    raise _Timeout()
+
+
+def _run_history_chunk(cases):
+    import shutil
+    import signal
+    torf = common.import_torf()
+    from harness.impl import magnet as mg
+    srv = None
+    out = []
+    try:
+        for ci, c in enumerate(cases):
+            bdocs = [dec(d) for d in c['docs']]
+            docs = [_hdoc(None, c, i) for i in range(len(bdocs))]
+            mag = c['magnet']
+            h16 = _own_hash(bdocs[0]) if mag['hash'] == 'doc0' else mag['hash']
+            kw = {}
+            serve = c['meta']['serve']
+            if serve:
+                if srv is None:
+                    srv = mg.TorrentServer()
+                base = 'http://127.0.0.1:%d' % srv.port
+                srv.routes.clear()
+                body = {'doc0': lambda: (200, bstrict.ser(bdocs[0])),
+                        'doc0-nopieces': lambda: (200, bstrict.ser({**bdocs[0], b'info': {k: v for k, v in bdocs[0][b'info'].items() if k != b'pieces'}})),
+                        'garbage': lambda: (200, b'this is not bencoded'),
+                        'notfound': lambda: (404, b'')}[serve]()
+                srv.routes['/meta/t.torrent'] = body
+                kw['xs'] = base + '/meta/t.torrent'
+            else:
+                base = 'http://tracker.example.org'
+            if mag['tr']:
+                kw['tr'] = ['%s/announce/%d' % (base, j) for j in range(mag['tr'])]
+            if mag['ws']:
+                kw['ws'] = [base + '/seed/f']
+            if mag['dn'] is not None:
+                kw['dn'] = mag['dn']
+            if mag['xl'] is not None:
+                kw['xl'] = mag['xl']
+            obs = {'base16': h16, 'stages': []}
+            env = {'dir': os.path.join(common.worker_dir(), 'c06h-%d-%d' % (os.getpid(), ci)), 'n': 0}
+            try:
+                origin = c.get('origin', 'magnet')
+                if origin != 'magnet':
+                    raise _NoMagnet()
+                m = torf.Magnet(mg.notations(h16)[mag['notation']], **kw)
+                if serve:
+                    try:
+                        obs['adopted'] = bool(m.get_info(validate=c['meta']['validate'], timeout=10))
+                    except Exception as e:  # noqa   (e.g. "Mismatching info hashes" is raised, not reported)
+                        obs['adopted'] = False
+                        obs['get_info_raised'] = ekind(e)
+                else:
+                    obs['adopted'] = False
+                t = m.torrent()
+            except _NoMagnet:
+                # an ordinary Torrent: nothing ever stores a hash on it (for the model: like a magnet with adopted metadata)
+                obs['adopted'] = True
+                try:
+                    t = torf.Torrent() if origin == 'new' else torf.Torrent.read_stream(io.BytesIO(bstrict.ser(bdocs[0])), validate=False)
+                except Exception as e:  # noqa   (a creation date that cannot be represented, ...: C05 matters)
+                    out.append({'setup_failed': ekind(e)})
+                    continue
+            except Exception as e:  # noqa
+                out.append({'setup_failed': ekind(e)})
+                continue
+            try:
+                signal.signal(signal.SIGALRM, _on_alarm)
+                signal.alarm(HISTORY_TIMEOUT)
+                for si, st in enumerate(c['stages']):
+                    so = {'edit_errors': [], 'copy': False}
+                    for e in st['edits']:
+                        try:
+                            t = _apply_edit(torf, t, e, docs, env)
+                            so['copy'] = so['copy'] or e[0] == 'copy'
+                        except Exception as ex:  # noqa   a refused edit is no export; the history goes on
+                            so['edit_errors'].append([e[0], type(ex).__name__])
+                    def segment(changed_by=None):
+                        # the state the following exports read: metainfo, validate()'s verdict, and whether a magnet link
+                        # reduced to the hash can be built
+                        seg = {'mjson': pyval.to_json(plain(t.metainfo)), 'changed_by': changed_by}
+                        try:
+                            t.validate()
+                            seg['vok'] = True
+                        except Exception:  # noqa
+                            seg['vok'] = False
+                        seg['min_ok'] = 'ok' in _attempt(lambda: t.magnet(name=False, size=False, trackers=False).xt)
+                        return seg
+                    so['segments'] = [segment()]
+
+                    def ws():
+                        b = io.BytesIO()
+                        t.write_stream(b, validate=True)
+                        return b.getvalue().hex()
+
+                    def wr():
+                        path = os.path.join(common.worker_dir(), 'c06h-%d-%d-%d.torrent' % (os.getpid(), ci, si))
+                        try:
+                            t.write(path, validate=True, overwrite=True)
+                            with open(path, 'rb') as f:
+                                return f.read().hex()
+                        finally:
+                            if os.path.exists(path):
+                                os.unlink(path)
+                    ops = {'infohash': lambda: t.infohash, 'b32': lambda: t.infohash_base32.decode('ascii'),
+                           'magnet': lambda: t.magnet().xt, 'magnet_str': lambda: str(t.magnet()),
+                           # the link reduced to the hash: nothing but the hash can make it fail
+                           'magnet_min': lambda: t.magnet(name=False, size=False, trackers=False).xt,
+                           'dump': lambda: t.dump(validate=True).hex(), 'dump_nv': lambda: t.dump(validate=False).hex(),
+                           'write_stream': ws, 'write': wr}
+                    so['results'] = []
+                    for name in st['order']:
+                        r = _attempt(ops[name])
+                        if pyval.to_json(plain(t.metainfo)) != so['segments'][-1]['mjson']:
+                            # the export changed the metainfo (e.g. the `name` getter fills in the default name): what it
+                            # returned is judged against the object as it is when the call returns
+                            so['segments'].append(segment(changed_by=name))
+                        so['results'].append([name, r, len(so['segments']) - 1])
+                    obs['stages'].append(so)
+            except _Timeout:
+                obs = {'timeout': True, 'stages_done': len(obs['stages'])}
+            finally:
+                signal.alarm(0)
+                shutil.rmtree(env['dir'], ignore_errors=True)
+            out.append(obs)
+    finally:
+        if srv is not None:
+            srv.close()
+    return out
+
+
+def _reported(oks):
+    """(operation, hex digest it denotes) for the hash-reporting exports"""
+    digests = []
+    for n, x in oks:
+        try:
+            if n == 'infohash':
+                digests.append((n, x if len(x) == 40 and x == x.lower() else 'malformed:' + x))
+            elif n == 'b32':
+                digests.append((n, base64.b32decode(x).hex()))
+            elif n in ('magnet', 'magnet_min'):
+                digests.append((n, x[len('urn:btih:'):] if x.startswith('urn:btih:') else 'malformed:' + x))
+            elif n == 'magnet_str':
+                digests.append((n, x[len('magnet:?xt=urn:btih:'):][:40] if x.startswith('magnet:?xt=urn:btih:') else 'malformed:' + x))
+        except Exception:  # noqa
+            digests.append((n, 'malformed:%r' % (x,)))
+    return digests
+
+
+def _history_py(c):
+    """the history as the Python a user would write (for the report)"""
+    mag = c['magnet']
+    if c.get('origin', 'magnet') != 'magnet':
+        lines = ['t = Torrent()' if c['origin'] == 'new' else 't = Torrent.read_stream(<canonical bencoding of doc0>, validate=False)']
+        return lines + _history_py_stages(c)
+    lines = ["m = Magnet(<%s of %s>%s%s%s%s)" % (mag['notation'], 'sha1 of doc0.info' if mag['hash'] == 'doc0' else mag['hash'],
+                                                 ', dn=%r' % mag['dn'] if mag['dn'] is not None else '',
+                                                 ', xl=%r' % mag['xl'] if mag['xl'] is not None else '',
+                                                 ', tr=[%d urls]' % mag['tr'] if mag['tr'] else '', ', ws=[1 url]' if mag['ws'] else '')]
+    if c['meta']['serve']:
+        lines.append('m.get_info(validate=%r)   # xs serves: %s' % (c['meta']['validate'], c['meta']['serve']))
+    lines.append('t = m.torrent()')
+    return lines + _history_py_stages(c)
+
+
+def _history_py_stages(c):
+    lines = []
+    for st in c['stages']:
+        for e in st['edits']:
+            a = e[1] if len(e) > 1 else ''
+            v = _short(e[2], 70) if len(e) > 2 else ''          # the encoded value ({'i': '5'} = int 5, {'n': 1} = None, ...)
+            fmt = {'copy': 't = t.copy()', 'update-info': "t.metainfo['info'][k] = v  for k, v in doc%s.info" % a,
+                   'sync-info': "t.metainfo['info'] completed key by key to doc%s.info (other keys deleted)" % a,
+                   'assign-info': "t.metainfo['info'] = doc%s.info" % a,
+                   'assign-metainfo': 't.metainfo.clear(); t.metainfo.update(doc%s)' % a,
+                   'del-info': "t.metainfo['info'].pop(%r, None)" % a, 'set-info': "t.metainfo['info'][%r] = %s" % (a, v),
+                   'set-top': "t.metainfo[%r] = %s" % (a, v), 'del-top': "t.metainfo.pop(%r, None)" % a,
+                   'attr': "t.%s = %s" % (a, v), 'generate': 't.path = <content %s>; t.generate()' % (a,),
+                   'regenerate': 't.generate()', 'path-none': 't.path = None',
+                   'touch-content': '<one content file grows by a byte>'}
+            lines.append(fmt[e[0]])
+        lines.append('exports: ' + ', '.join(st['order']))
+    return lines
+
+
+def _info_change(before, after):
+    """what an export did to the metainfo (tagged-JSON snapshots): keys added to info, and whether anything else changed"""
+    def info_items(mj):
+        return next((v['v'] for k, v in mj['v'] if k == {'t': 's', 'v': 'info'} and v.get('t') == 'd'), None)
+    bi, ai = info_items(before), info_items(after)
+    if bi is None or ai is None:
+        return {'info keys added': [], 'anything else': True}
+    added = [k['v'] for k, v in ai if [k, v] not in bi and k.get('t') == 's' and all(k != k2 for k2, _ in bi)]
+    rest_same = ([kv for kv in ai if not (kv[0].get('t') == 's' and kv[0]['v'] in added)] == bi
+                 and [kv for kv in before['v'] if kv[0] != {'t': 's', 'v': 'info'}] == [kv for kv in after['v'] if kv[0] != {'t': 's', 'v': 'info'}])
+    return {'info keys added': added, 'anything else': not rest_same}
+
+
+def _drv_par(drv, reqs):
+    """drv.run over several driver processes at once (the replies keep the order of the requests)"""
+    import concurrent.futures
+    chunks = common.split(reqs, common.NPROC)
+    if len(chunks) <= 1:
+        return drv.run(reqs)
+    with concurrent.futures.ThreadPoolExecutor(len(chunks)) as ex:
+        return [r for part in ex.map(drv.run, chunks) for r in part]
+
+
+def evaluate_history(ctx, drv, cases):
+    results = common.pmap(_run_history_chunk, common.split(cases, common.NPROC * 4))
+    pairs = [(c, o) for c, o in zip(cases, [o for ch in results for o in ch])]
+    for c, o in pairs:
+        if 'setup_failed' in o:
+            ctx.dist['history-setup-failed:' + o['setup_failed']] += 1
+    for c, o in pairs:
+        if o.get('timeout'):
+            ctx.violation('a history of edits and exports on one Torrent object did not finish within %d s (after %d stages)'
+                          % (HISTORY_TIMEOUT, o['stages_done']), dict({k: c[k] for k in c}, py=_history_py(c)),
+                          'every export returns or raises', 'timeout', finding_matchers=MATCHERS)
+    pairs = [(c, o) for c, o in pairs if 'setup_failed' not in o and not o.get('timeout')]
+    # a unit = one state of the object (a stage of the history, or what an export turned that stage into) with the exports
+    # that returned in it
+    for c, o in pairs:
+        o['units'] = [{'stage': si, 'seg': gi, 'copy': so['copy'] and gi == 0, 'mjson': seg['mjson'], 'vok': seg['vok'],
+                       'min_ok': seg['min_ok'], 'changed_by': seg['changed_by'], 'order': c['stages'][si]['order'],
+                       'results': [[n, r] for n, r, g in so['results'] if g == gi]}
+                      for si, so in enumerate(o['stages']) for gi, seg in enumerate(so['segments'])]
+    for c, o in pairs:
+        for prev, u in zip(o['units'], o['units'][1:]):
+            if u['changed_by']:
+                u['change'] = _info_change(prev['mjson'], u['mjson'])
+    # phase 1: dump / info bytes of every unit (model), so that the digest function H can be tabulated
+    flat = [(ci, ui) for ci, (c, o) in enumerate(pairs) for ui in range(len(o['units']))]
+    rep1 = _drv_par(drv, [{'op': 'c06.export', 'm': pairs[ci][1]['units'][ui]['mjson'], 'vok': pairs[ci][1]['units'][ui]['vok'],
+                     'validate': True} for ci, ui in flat])
+    tables = {}
+    for (ci, ui), m in zip(flat, rep1):
+        tab = []
+        if 'ok' in m['infoBytes']:
+            tab.append(m['infoBytes']['ok'])
+        if 'ok' in m['dump'] and m['span']:
+            a, ln = m['span']
+            tab.append(m['dump']['ok'][2 * a:2 * (a + ln)])
+        tables[(ci, ui)] = [[x, hashlib.sha1(bytes.fromhex(x)).hexdigest()] for x in sorted(set(tab))]
+    # phase 2: the history in the model
+    rep2 = _drv_par(drv, [{'op': 'c06.history', 'base16': o['base16'], 'adopted': o['adopted'],
+                     'stages': [{'copy': u['copy'], 'm': u['mjson'], 'vok': u['vok'], 'H': tables[(ci, ui)]}
+                                for ui, u in enumerate(o['units'])]} for ci, (c, o) in enumerate(pairs)])
+    for (c, o), hm in zip(pairs, rep2):
+        case = {k: c[k] for k in ('kind', 'seed', 'docs', 'magnet', 'meta', 'stages')}
+        case['origin'] = c.get('origin', 'magnet')
+        case['py'] = _history_py(c)
+        profile = []
+        failed = False
+        for u, m in zip(o['units'], hm['stages']):
+            res = u['results']
+            oks = [(n, r['ok']) for n, r in res if 'ok' in r]
+            errs = [(n, r['err']) for n, r in res if 'err' in r]
+            written = [(n, x) for n, x in oks if n in H_VALIDATED]
+            unvalidated = [x for n, x in oks if n == 'dump_nv']
+            digests = _reported(oks)
+            stored = m['explicit'] is not None
+            profile.append(('written' if written else 'refused') + ('+stored' if stored else ''))
+            ctx.dist['history-state/%s/%s' % ('validate() accepts' if u['vok'] else 'validate() refuses',
+                                               'object has a stored hash' if stored else 'no stored hash')] += 1
+            if u['changed_by']:
+                ctx.dist['history-state/reached by an export that changed the metainfo: ' + u['changed_by']] += 1
+            where = ' [stage %d of the history%s; exports in this order: %s]' % (
+                u['stage'], ', after %s() changed the metainfo' % u['changed_by'] if u['changed_by'] else '', ', '.join(u['order']))
+            ucase = dict(case, failing_stage=u['stage'], changed_by=u['changed_by'])
+            # ---------------- the property on what the implementation did (implementation vs specification)
+            bad = None
+            # the full magnet link may be unavailable for a reason unrelated to the hash (a URL or a size the Magnet class
+            # refuses: C07/C13 matters): tolerated and counted if the error is no MetainfoError and - for a MagnetError -
+            # the link reduced to the hash (magnet_min) can be built in this state.  magnet_min may only raise MetainfoError.
+            unrelated = [(n, e) for n, e in errs if n in ('magnet', 'magnet_str') and e != 'metainfo' and (e != 'magnet' or u['min_ok'])]
+            for n, e in unrelated:
+                ctx.dist['magnet-unavailable:' + e] += 1
+            errs = [x for x in errs if x not in unrelated]
+            other = [(n, e) for n, e in errs if e != 'metainfo']
+            if other:
+                bad = ('an export operation raised an undocumented error', other)
+            if bad is None and len({x for _, x in written}) > 1:
+                bad = ('dump() / write_stream() / write() of one unchanged Torrent object produced different bytes', _short(written, 500))
+            if bad is None and written and any(n in H_VALIDATED for n, _ in errs):
+                bad = ('one validated export of an unchanged Torrent object succeeded, another one raised',
+                       [(n, e) for n, e in errs if n in H_VALIDATED])
+            if bad is None and written and any(n == 'dump_nv' for n, _ in res) and (
+                    len(set(unvalidated)) != 1 or unvalidated[0] != written[0][1] or any(n == 'dump_nv' for n, _ in errs)):
+                bad = ('dump(validate=False) of a valid torrent differs from dump(validate=True)',
+                       _short([r for n, r in res if n == 'dump_nv'], 300))
+            if bad is None and len({d for _, d in digests}) > 1:
+                bad = ('infohash, infohash_base32 and the magnet link of one unchanged Torrent object denote different hashes', digests)
+            if bad is None and digests and any(n in H_HASHES for n, e in errs):
+                bad = ('one hash report of an unchanged Torrent object succeeded, another one raised',
+                       [(n, e) for n, e in errs if n in H_HASHES])
+            if bad is None and written:
+                y = bytes.fromhex(written[0][1])
+                try:
+                    top, spans = bstrict.strict_parse(y)
+                    if not (isinstance(top, dict) and b'info' in top):
+                        bad = ('written bytes have no info dictionary', written[0][1][:200])
+                    else:
+                        a, b = spans[id(top)][b'info']
+                        d = hashlib.sha1(y[a:b]).hexdigest()
+                        wrong = [(n, x) for n, x in digests if x != d]
+                        if wrong:
+                            bad = ('the reported infohash is not the SHA-1 of the info span of the bytes that were written'
+                                   + (' (it is the hash of the magnet link the object was created from)'
+                                      if all(x == o['base16'] for _, x in wrong) else ''),
+                                   {'sha1(info span of %s)' % written[0][0]: d, 'reported': digests,
+                                    'hash of the magnet link': o['base16'], 'info span': y[a:b][:300]})
+                        elif not digests and any(n in H_HASHES for n, _ in errs):
+                            bad = ('the torrent was written but its infohash cannot be read', errs)
+                except bstrict.NonCanonical as e:
+                    bad = ('written bytes are not canonical bencoding: %s' % e, written[0][1][:400])
+            if bad:
+                known = ctx.violation(
+                    bad[0] + where, ucase,
+                    'in every state of a history on one object: every validated export raises MetainfoError, or all '
+                    'exports agree: one byte string, canonical, sha1(info span) == infohash == '
+                    'b32decode(infohash_base32) == magnet xt (theorems C06_history, C06_explicit_span_validated); '
+                    'a stored hash may only be reported while the hash cannot be calculated (C06_explicit_iff)',
+                    {'detail': bad[1], 'metainfo in this state': _short(u['mjson'], 600), 'validate() accepts': u['vok'],
+                     'stored hash (model)': m['explicit'], 'the export changed': u.get('change'),
+                     'results': [[n, _short(r, 160)] for n, r in res]},
+                    finding_matchers=MATCHERS)
+                if not known:
+                    failed = True
+                    break
+                continue                   # a recorded finding does not end the history: the next states are judged as well
+            # ---------------- model vs specification (theorem C06_explicit_span_validated)
+            if m['hyp'] and not m['canon']:
+                ctx.machinery_error('model dump is not canonical (contradicts C06_canonical)', ucase)
+                failed = True
+                break
+            if m['hyp'] and 'ok' in m['dumpT'] and (m['specHash'] is None or m['infohash'] != {'ok': m['specHash']}):
+                ctx.machinery_error('model infohash is not the digest of the info span of the model dump '
+                                    '(contradicts C06_explicit_span_validated)', dict(ucase, model=_short(m, 400)))
+                failed = True
+                break
+            if not m['hyp']:
+                ctx.dist['history-state/outside-hypothesis'] += 1
+                continue
+            # ---------------- correspondence: the model's exports and reports are the implementation's
+            names = {'dump': 'dump', 'dump_nv': 'dump_nv', 'infohash': 'infohash', 'b32': 'b32', 'xt': 'magnet_min'}
+            impl = {k: next((r for n, r in res if n == v), None) for k, v in names.items()}
+            model = {'dump': m['dumpT'], 'dump_nv': m['dumpF'], 'infohash': m['infohash'], 'b32': m['b32'], 'xt': m['xt']}
+            diff = [k for k in model if impl[k] is not None and impl[k] != model[k]]
+            if diff:
+                mm = {k: _short(model[k], 200) for k in diff}
+                mm['the model reports the'] = m['source'] + ' hash'
+                ctx.corr_break('c06.history/' + diff[0], ucase, mm, {k: _short(impl[k], 200) for k in diff})
+                failed = True
+                break
+        if failed:
+            continue
+        nontrivial = any(p.startswith('written') for p in profile) and len(set(profile)) > 1
+        ctx.case(key=('h', c['seed'], tuple(profile)), nontrivial=nontrivial,
+                 kind='history/%s/%s' % ({'new': 'Torrent()', 'read': 'read_stream()'}.get(c.get('origin'), 'Magnet.torrent(), metadata adopted'
+                                                                                               if o['adopted'] else 'Magnet.torrent(), hash stored'),
+                                         'copy' if any(so['copy'] for so in o['stages']) else 'same object'))
+        if ctx.dist['sampled-history'] < 2 and nontrivial and not o['adopted'] and len(profile) <= 6:
+            ctx.dist['sampled-history'] += 1
+            ctx.sample({'case': {'py': case['py']}, 'states': [
+                {'validate() accepts': u['vok'], 'stored hash': m['explicit'], 'model reports the': m['source'] + ' hash',
+                 'infohash': next((r for n, r in u['results'] if n == 'infohash'), None),
+                 'dump': _short(next((r for n, r in u['results'] if n == 'dump'), None), 60)}
+                for u, m in zip(o['units'], hm['stages'])]}, limit=10)
+
+
 def _diagnose(w):
     if 'ok' not in w:
         return 'raised ' + str(w.get('err'))
@@ -839,12 +1440,18 @@ def run(ctx, drv):
         'items (taken from the same object before the exports), a one-shot iterator as PyVal.other; the demand that all '
         'exports of one object agree with the bytes written is checked on the implementation directly '
         '(implementation vs specification, no theorem quantifies over such values); cyclic containers are not generated',
-        'torrents created from a magnet link (the _infohash fallback of Torrent.infohash) are outside the model',
+        'histories on one Torrent from Magnet.torrent(): the metainfo after every edit is taken from the object (the edits are '
+        'Python dict operations, attribute setters and generate(), not modelled here); the model carries the stored hash '
+        '(_infohash: set by Magnet.torrent() iff get_info() returned False / was not called, dropped by copy(), touched by nothing '
+        'else) through the history and predicts every export and report; get_info() runs against a loopback HTTP server',
     ]
     total = ctx.n(2500, 40000)
     cases = _load_corpus(ctx)
     exo = [c for c in cases if c.get('kind') == 'exotic']
     cases = [c for c in cases if c.get('kind') != 'exotic']
+    hist = [c for c in cases if c.get('kind') == 'history']
+    cases = [c for c in cases if c.get('kind') != 'history']
+    evaluate_history(ctx, drv, hist + history_cases(ctx, ctx.n(700, 12000)))
     evaluate_exotic(ctx, drv, exo + exotic_cases(ctx, ctx.n(1500, 20000)))
     while total > 0:
         n = min(BATCH, total)
@@ -854,9 +1461,13 @@ def run(ctx, drv):
         if ctx.violations:
             break
     ctx.exhaustive = False
+    for f in ctx.open_findings():
+        if f['id'] not in ctx.known and f['id'] not in ctx.not_reproduced:
+            ctx.not_reproduced.append(f['id'])
 
 
 def search(ctx, drv):
+    evaluate_history(ctx, drv, history_cases(ctx, ctx.n(2000, 10000)))
     evaluate_exotic(ctx, drv, exotic_cases(ctx, ctx.n(3000, 10000)))
     for _ in range(2):
         evaluate(ctx, drv, gen_cases(ctx, ctx.n(2500, 5000)))
@@ -871,6 +1482,10 @@ def replay(ctx, drv, rp):
         return {'fails': False, 'note': 'digest-only case'}
     if c.get('kind') == 'exotic':
         evaluate_exotic(ctx, drv, [c])
+    elif c.get('kind') == 'history':
+        c.pop('py', None)
+        c.pop('failing_stage', None)
+        evaluate_history(ctx, drv, [c])
     else:
         evaluate(ctx, drv, [c])
     return {'fails': bool(ctx.violations or ctx.corr_breaks), 'violations': ctx.violations,
